@@ -121,7 +121,17 @@ def optV (j : Json) : Except String (Option V) :=
 
 def toField (j : Json) : Except String FieldDef := do
   let name ← str (j.getObjValD "name")
-  let alias ← (match j.getObjValD "alias" with | .str s => pure (some s) | _ => pure none : Except String (Option String))
+  let alias0 ← (match j.getObjValD "alias" with | .str s => pure (some s) | _ => pure none : Except String (Option String))
+  -- C09: the alias may be given by its three sources; the model resolves the precedence
+  let alias : Option String := match j.getObjVal? "alias_sources" with
+    | .ok src =>
+        let md : Option String := match src.getObjValD "meta" with | .str s => some s | _ => none
+        let ann : List String := match src.getObjValD "annotated" with
+          | .arr a => a.toList.filterMap (fun x => match x with | .str s => some s | _ => none)
+          | _ => []
+        let cfg : Option String := match src.getObjValD "config" with | .str s => some s | _ => none
+        aliasOf md ann cfg
+    | .error _ => alias0
   let dflt ← optV (j.getObjValD "default")
   pure { name := name, alias := alias, default := dflt, init := getB j "init" true, serOmit := getB j "omit" }
 
